@@ -95,6 +95,100 @@ fn pin_geometry(ctx: &WorkerCtx) -> Result<(), Fail> {
         }
     }
     st.class("directed: every pin geometry (king square x direction x distances x pinned type x pinner type, both colours)");
+    // castling under attack, enumerated: each back-rank square b1..g1 attacked by each piece type
+    // from each square it can attack from (one attacker at a time), both rights held, both colours
+    if ctx.idx == 1 % ctx.n {
+        let check = |pos: &Pos, st: &mut Stats| -> Result<(), Fail> {
+            let legal = pos.legal();
+            let res = guarded(|| -> Result<(), String> {
+                let b = to_board(pos)?;
+                let gen = gen_moves(&b);
+                if gen != legal {
+                    let extra: Vec<_> = gen.iter().copied().filter(|m| !legal.contains(m)).collect();
+                    let missing: Vec<_> = legal.iter().copied().filter(|m| !gen.contains(m)).collect();
+                    return Err(format!("C01 directed `{}`: generated-but-illegal=[{}] legal-but-missing=[{}]", pos.fen(), fmt_moves(&extra), fmt_moves(&missing)));
+                }
+                for m in &legal {
+                    if !b.is_legal(to_cm(*m)) {
+                        return Err(format!("C01 directed `{}`: is_legal({m}) is false", pos.fen()));
+                    }
+                }
+                Ok(())
+            })
+            .unwrap_or_else(Err);
+            if let Err(d) = res {
+                let case = PlayCase { root: Root::Fen(pos.fen()), half: 0, full: 0, choices: vec![], aux: 0 };
+                return Err(Fail { case: case_json(&case), detail: d });
+            }
+            st.eval(1);
+            st.nontrivial(digest(&pos.key()));
+            Ok(())
+        };
+        for kind in [P::Pawn, P::Knight, P::Bishop, P::Rook, P::Queen, P::King] {
+            for s in 8..64u8 {
+                if kind == P::Pawn && !(1..=6).contains(&rk(s)) {
+                    continue;
+                }
+                let mut p = Pos::empty();
+                p.full = 1;
+                p.sq[4] = Some((C::White, P::King));
+                p.sq[0] = Some((C::White, P::Rook));
+                p.sq[7] = Some((C::White, P::Rook));
+                p.castle = [true, true, false, false];
+                p.sq[s as usize] = Some((C::Black, kind));
+                if kind != P::King {
+                    // black king far away on a square that keeps the position valid
+                    let Some(bk) = (40..64u8).rev().find(|&q| {
+                        if p.sq[q as usize].is_some() {
+                            return false;
+                        }
+                        let mut t = p.clone();
+                        t.sq[q as usize] = Some((C::Black, P::King));
+                        t.plausible()
+                    }) else {
+                        continue;
+                    };
+                    p.sq[bk as usize] = Some((C::Black, P::King));
+                }
+                if !p.plausible() {
+                    continue;
+                }
+                check(&p, &mut st)?;
+                check(&p.mirror(), &mut st)?;
+            }
+        }
+        st.class("directed: castling with one attacker of every type on every square (both colours)");
+        // en passant, enumerated: every file, both capturer sides, both colours, played by a double step
+        for f in 0..8i8 {
+            for side in [-1i8, 1] {
+                let (Some(from), Some(to), Some(cap)) = (mk(f, 6), mk(f, 4), mk(f + side, 4)) else { continue };
+                for wk in [0u8, 7, 20] {
+                    let mut p = Pos::empty();
+                    p.full = 1;
+                    p.turn = C::Black;
+                    p.sq[from as usize] = Some((C::Black, P::Pawn));
+                    p.sq[cap as usize] = Some((C::White, P::Pawn));
+                    if p.sq[wk as usize].is_some() {
+                        continue;
+                    }
+                    p.sq[wk as usize] = Some((C::White, P::King));
+                    let bk = if fl(60) == f { 62 } else { 60 };
+                    p.sq[bk as usize] = Some((C::Black, P::King));
+                    if !p.plausible() {
+                        continue;
+                    }
+                    let m = refchess::Mv { from, to, promo: None };
+                    if !p.legal().contains(&m) {
+                        continue;
+                    }
+                    let q = p.apply(m);
+                    check(&q, &mut st)?;
+                    check(&q.mirror(), &mut st)?;
+                }
+            }
+        }
+        st.class("directed: en passant on every file from either side (both colours)");
+    }
     Ok(())
 }
 
